@@ -2279,6 +2279,42 @@ def grd12_reuse_only_complete_logs(P, R, L, rule="GRD-12"):
                     "reader-state queries %s; guard edges %d" % ([c.name.rsplit("::", 1)[1] for c in q], len(e)))
 
 
+def grd12_cursor_counts_complete_reads(P, R, L, rule="GRD-12"):
+    """`is_fully_consumed` (the guard GRD-12 relies on) compares LogReader::current_cursor_position with the file length,
+    so the cursor may only count bytes of completely read physical records: in read_physical_record a store to the
+    cursor that can follow a (possibly short) `read` lies behind that read's `bytes_read >= expected` edge."""
+    b = P.body(READ_PHYS)
+    if b is None:
+        return R.missing_anchor(rule, READ_PHYS)
+    R.analysed(b)
+    stores = [s for s in field_stores(b, "current_cursor_position")]
+    reads = [c for c in b.calls() if not b.is_cleanup(c.bb) and (c.declared_name or c.name or "").endswith("::read")
+             and "read_exact" not in (c.name or "")]
+    R.floor(rule, "short-read-capable read sites in read_physical_record", len(reads), 2)
+    bad = []
+    for r in reads:
+        n_is = lambda os_, r=r: any(o.kind == "call" and o.site is not None and o.site.bb == r.bb for o in os_)
+        anything = lambda os_: True
+        full = []
+        for c in comparisons(b):
+            full += c.edges_where("ge", n_is, anything)
+        if not full:
+            bad.append("the byte count of the read at line %s is never compared with the expected length" % r.line)
+            continue
+        start = None
+        for t in result_tests(b, r.dest["l"]):
+            for e in t.ok_edges():
+                start = e[1]
+        start = start if start is not None else r.target
+        reach = b.reachable(start)
+        for s in stores:
+            if s[0] in reach and not b.must_pass(s[0], through_edges=full, start=start):
+                bad.append("the cursor store at line %s can follow the read at line %s without passing its full-read edge" % (s[2].get("line"), r.line))
+    R.check(rule, READ_PHYS + "|cursor-counts-only-complete-reads", bool(stores) and not bad, where(b),
+            "the consumed-bytes cursor is advanced only behind the `bytes_read >= expected` edge of every read that precedes the store "
+            "(a torn tail must leave cursor < file length)", "; ".join(bad) or "%d stores, %d read sites" % (len(stores), len(reads)))
+
+
 # ------------------------------------------------------------------------------------------- MAN-1 manifest reader reports damage
 def man1_manifest_reader_strict(P, R, L, rule="MAN-1"):
     """Skipping a damaged fragment is documented behaviour for the write-ahead log only. The manifest must be read in a
@@ -2806,3 +2842,153 @@ def pair11_loaded_child_positioned(P, R, L, rule="PAIR-11", types=None):
                             loader.rsplit("::", 1)[1], want or "a seek"),
                         "positioning calls on the child: %s; %s" % (kinds, "a return is reachable without one" if bad else "all paths covered"))
     R.floor(rule, "loader call sites of the two-level iterators", n, 5 * len([t for t in TWO_LEVEL_TABLE if not types or t[0] in types]))
+
+
+# ------------------------------------------------------------------------------------------- TS-2 writer-side fragment typing
+def ts2_writer_fragment_types(P, R, L, rule="TS-2"):
+    """LogWriter::append: the fragment type written for a chunk is the one the reader's reassembly automaton (TS-1)
+    expects: Full = first & last, First = first & !last, Last = !first & last, Middle = !first & !last; the `first`
+    flag is cleared after every emitted fragment; `last` means `remaining == length of the chunk written now`; the
+    chunk is min(remaining, room in the block)."""
+    fn = "logs::LogWriter::append"
+    b = P.body(fn)
+    if b is None:
+        return R.missing_anchor(rule, fn)
+    R.analysed(b)
+    emits = [c for c in b.calls() if c.name == "logs::LogWriter::emit_block" and not b.is_cleanup(c.bb)]
+    if len(emits) != 1:
+        return R.check(rule, fn + "|anchors", False, where(b), "append emits fragments at exactly one emit_block site", "sites %d" % len(emits))
+    emit = emits[0]
+    tyl = roots(b, emit.args[1])
+    # variant assignments feeding the block type argument
+    assigns = {}
+    for bb in range(b.n):
+        if b.is_cleanup(bb):
+            continue
+        for st in b.blocks[bb]["stmts"]:
+            if st["k"] == "assign" and not st["pl"]["p"] and st["pl"]["l"] in tyl and (
+                    st["rv"]["k"] == "aggregate" or (st["rv"]["k"] == "use" and st["rv"]["ops"][0]["k"] == "const")):
+                for v in stored_variants(b, st):
+                    if v:
+                        assigns.setdefault(v, []).append(bb)
+    # flags: bool locals whose switches control those assignments
+    class _T:
+        def __init__(self, bb, ok, err):
+            self.bb, self.ok, self.err = bb, ok, err
+
+    def tests_of(l):
+        """switches on the bool local, directly or as a field of a tuple built from it (`match (first, last) {..}`)"""
+        out = [_T(t.bb, list(t.ok), list(t.err)) for t in _bt(b, l)]
+        for bb in range(b.n):
+            for st in b.blocks[bb]["stmts"]:
+                if st["k"] == "assign" and st["rv"]["k"] == "aggregate" and st["rv"].get("ak") == "tuple" and not st["pl"]["p"]:
+                    for i, op in enumerate(st["rv"]["ops"]):
+                        if op["k"] in ("copy", "move") and not op["pl"]["p"] and (op["pl"]["l"] == l or l in roots(b, op)) and b.local_ty(op["pl"]["l"]) == "bool":
+                            tl = st["pl"]["l"]
+                            for sb in range(b.n):
+                                t = b.term(sb)
+                                if t["k"] == "switch" and t["discr"]["k"] in ("copy", "move") and t["discr"]["pl"]["l"] == tl:
+                                    pr = t["discr"]["pl"]["p"]
+                                    if len(pr) == 1 and isinstance(pr[0], dict) and str(pr[0].get("f")) == str(i):
+                                        fl = [tg for v, tg in t["targets"] if int(v) == 0]
+                                        tr = [tg for v, tg in t["targets"] if int(v) != 0] + ([t["otherwise"]] if t.get("otherwise") is not None else [])
+                                        out.append(_T(sb, tr, fl))
+        return out
+    first, last = [], []
+    for l in range(len(b.locals)):
+        if b.local_ty(l) != "bool" or b.local_name(l) is None:
+            continue
+        ts_ = tests_of(l)
+        if not ts_ or not any(any(not b.must_pass(x, through_edges=[(t.bb, y) for y in t.ok]) or not b.must_pass(x, through_edges=[(t.bb, y) for y in t.err])
+                                  for x in sum(assigns.values(), [])) for t in ts_):
+            continue
+        defs = [d for d in b.defs().get(l, []) if d[0] == "stmt"]
+        if defs and all(d[3]["rv"]["k"] == "use" and d[3]["rv"]["ops"][0]["k"] == "const" for d in defs):
+            first.append(l)
+        elif len(defs) == 1 and defs[0][3]["rv"]["k"] == "binop" and defs[0][3]["rv"]["op"] == "Eq":
+            last.append(l)
+    if len(first) != 1 or len(last) != 1 or set(assigns) != {"Full", "First", "Middle", "Last"}:
+        return R.check(rule, fn + "|anchors", False, where(b), "one const-assigned `first` flag, one `last` flag defined by an equality, four fragment types",
+                       "first %s last %s variants %s" % (first, last, sorted(assigns)))
+    F, Lf = first[0], last[0]
+    f_true = [(t.bb, y) for t in tests_of(F) for y in t.ok]
+    f_false = [(t.bb, y) for t in tests_of(F) for y in t.err]
+    l_true = [(t.bb, y) for t in tests_of(Lf) for y in t.ok]
+    l_false = [(t.bb, y) for t in tests_of(Lf) for y in t.err]
+    want = {"Full": (f_true, l_true), "First": (f_true, l_false), "Last": (f_false, l_true), "Middle": (f_false, l_false)}
+    for v, (fe, le) in sorted(want.items()):
+        ok = all(b.must_pass_fs(x, through_edges=fe) and b.must_pass_fs(x, through_edges=le) for x in assigns[v])
+        R.check(rule, fn + "|type-%s" % v, ok, where(b),
+                "%s is chosen exactly when first=%s and last=%s" % (v, v in ("Full", "First"), v in ("Full", "Last")),
+                "assigned in bb%s" % assigns[v])
+    # first flag cleared after every emitted fragment
+    clears = [bb for bb in range(b.n) if not b.is_cleanup(bb) for st in b.blocks[bb]["stmts"]
+              if st["k"] == "assign" and not st["pl"]["p"] and st["pl"]["l"] == F and st["rv"]["k"] == "use"
+              and st["rv"]["ops"][0]["k"] == "const" and st["rv"]["ops"][0].get("val") == "0"]
+    starts = [e[1] for t in result_tests(b, emit.dest["l"]) for e in t.ok_edges()]
+    ok = bool(clears) and bool(starts) and all(b.must_pass(emit.bb, through_nodes=clears, start=s) for s in starts)
+    R.check(rule, fn + "|first-flag-cleared-after-emit", ok, emit.where(), "after a fragment was written the next one is never typed First/Full", "clear sites %s" % clears)
+    # last <=> remaining == chunk length; chunk = min(remaining, room); consumed amount == chunk length
+    d = [x for x in b.defs().get(Lf, []) if x[0] == "stmt"][0][3]
+    is_len = lambda os_: bool(os_) and all(o.kind == "call" and (o.name or "").endswith("::len") for o in os_)
+    lo, ro = origins(b, d["rv"]["ops"][0]), origins(b, d["rv"]["ops"][1])
+    chunk_op = d["rv"]["ops"][1] if is_len(lo) else d["rv"]["ops"][0]
+    def named(op, depth=0):
+        if op["k"] not in ("copy", "move") or op["pl"]["p"] or depth > 6:
+            return None
+        l = op["pl"]["l"]
+        if b.local_name(l) is not None:
+            return l
+        ds = [x for x in b.defs().get(l, []) if x[0] == "stmt" and x[3]["rv"]["k"] == "use"]
+        return named(ds[0][3]["rv"]["ops"][0], depth + 1) if len(ds) == 1 else None
+    chunk_roots = roots(b, chunk_op)
+    chunk_named = named(chunk_op)
+    split = [c for c in b.calls() if not b.is_cleanup(c.bb) and (c.name or "").endswith("::split_at")]
+    consumed_ok = bool(split) and chunk_named is not None and all(named(c.args[1]) == chunk_named for c in split)
+    # the slice handed to emit_block is [0 .. chunk]
+    rng_ok = False
+    for o in origins(b, emit.args[2]):
+        if o.kind == "call" and o.site is not None and len(o.site.args) >= 2:
+            for bb2 in range(b.n):
+                for st in b.blocks[bb2]["stmts"]:
+                    if st["k"] == "assign" and st["rv"]["k"] == "aggregate" and "Range" in (st["rv"].get("adt") or "") and \
+                            st["pl"]["l"] in roots(b, o.site.args[1]):
+                        if chunk_named is not None and named(st["rv"]["ops"][1]) == chunk_named and st["rv"]["ops"][0]["k"] == "const" and st["rv"]["ops"][0].get("val") == "0":
+                            rng_ok = True
+    R.check(rule, fn + "|last-means-remaining-equals-chunk", (is_len(lo) or is_len(ro)) and consumed_ok and rng_ok, where(b),
+            "`last` compares the remaining length with the length of the chunk that is written now ([0..chunk]) and removed afterwards (split_at(chunk))",
+            "len side %s, split_at uses chunk %s, emitted range is 0..chunk %s" % (is_len(lo) or is_len(ro), consumed_ok, rng_ok))
+    # chunk = min(remaining, room)
+    cl = [x for x in [named(chunk_op)] if x is not None]
+    det = []
+    ok = bool(cl)
+    for l in cl:
+        for dd in b.defs().get(l, []):
+            bb0 = dd[1]
+            if dd[0] == "call" and strip_generics(dd[3].get("resolved") or dd[3].get("callee") or "") in ("std::cmp::min", "std::cmp::Ord::min"):
+                a_ = [origins(b, x) for x in dd[3]["args"]]
+                if len(a_) == 2 and (is_len(a_[0]) != is_len(a_[1])):
+                    continue          # min(remaining, room)
+                ok = False
+                det.append("bb%d: min() of something other than (remaining, room)" % bb0)
+                continue
+            if dd[0] == "call":
+                src_is_len = strip_generics(dd[3].get("resolved") or dd[3].get("callee") or "").endswith("::len")
+                bb0 = dd[3]["target"] if dd[3].get("target") is not None else bb0
+            elif dd[0] == "stmt":
+                src_is_len = is_len(origins(b, dd[3]["rv"]["ops"][0])) if dd[3]["rv"].get("ops") else False
+            else:
+                continue
+            edges = []
+            for c in comparisons(b):
+                a_len = lambda os_: is_len(os_)
+                a_oth = lambda os_: bool(os_) and not is_len(os_)
+                if src_is_len:
+                    edges += c.edges_where("le", a_len, a_oth)
+                else:
+                    edges += c.edges_where("le", a_oth, a_len)
+            if not edges or not b.must_pass(bb0, through_edges=edges):
+                ok = False
+                det.append("bb%d: chunk := %s without the guard that it is the smaller one" % (bb0, "remaining" if src_is_len else "room"))
+    R.check(rule, fn + "|chunk-is-min-of-remaining-and-room", ok, where(b),
+            "the chunk length is the remaining length only where remaining <= room, and the room only where room <= remaining", "; ".join(det))
